@@ -1,267 +1,6 @@
-import NutilsVerif.Core.Proto
-import NutilsVerif.Model.C17
-import NutilsVerif.Model.C17.Intern
+import NutilsVerif.Model.C17.Wire
 open NutilsVerif NutilsVerif.Proto NutilsVerif.C17
 
-/-! Value syntax (space separated tokens, prefix notation):
-`N` none, `E` ellipsis, `b0`/`b1`, `i<int>`, `f<hex>`, `c<hex>`, `s<hex>`, `y<hex>`, `t<hex>`,
-`T<n>` tuple, `L<n>` list, `D<n>` dict (of `P k v`), `S<n>` set, `Z<n>` frozenset, `O x<tname> <pos> x<content>`,
-`M self name`, `A<ndim> d1 .. x<dtype> x<data>`, `K<n> x<tname> fields..`, `G<n> x<tname> args..`,
-`U<n> x<modqual> <version> args..`, `V<n> x<modqual> args..`, `W<n> x<modqual> pairs..`, `X<n> x<modqual> counted..`
-(`Q<count> v`), `H x<pre>`, `n<kind> v`, `? x<tname>`.  -/
-
-def xbytes (s : String) : Option Bytes :=
-  if s.startsWith "x" then unhex (s.drop 1).toString else none
-
-def tailNat (s : String) : Option Nat := (s.drop 1).toString.toNat?
-def tailInt (s : String) : Option Int := (s.drop 1).toString.toInt?
-def tailHex (s : String) : Option Bytes := unhex (s.drop 1).toString
-
-mutual
-partial def parseV : List String → Option (Value × List String)
-  | [] => none
-  | tok :: rest =>
-    match tok.front with
-    | 'N' => some (.none, rest)
-    | 'E' => some (.ellipsis, rest)
-    | 'b' => if tok == "b0" then some (.bool false, rest) else if tok == "b1" then some (.bool true, rest) else none
-    | 'i' => (tailInt tok).map fun i => (.int i, rest)
-    | 'f' => (tailHex tok).map fun b => (.float b, rest)
-    | 'c' => (tailHex tok).map fun b => (.complex b, rest)
-    | 's' => (tailHex tok).map fun b => (.str b, rest)
-    | 'y' => (tailHex tok).map fun b => (.bytes b, rest)
-    | 't' => (tailHex tok).map fun b => (.type b, rest)
-    | 'T' => do let n ← tailNat tok; let (xs, r) ← parseN n rest; pure (.tuple xs, r)
-    | 'L' => do let n ← tailNat tok; let (xs, r) ← parseN n rest; pure (.list xs, r)
-    | 'D' => do let n ← tailNat tok; let (xs, r) ← parseN n rest; pure (.dict xs, r)
-    | 'S' => do let n ← tailNat tok; let (xs, r) ← parseN n rest; pure (.set xs, r)
-    | 'Z' => do let n ← tailNat tok; let (xs, r) ← parseN n rest; pure (.frozenset xs, r)
-    | 'P' => do let (k, r) ← parseV rest; let (v, r) ← parseV r; pure (.pair k v, r)
-    | 'Q' => do let n ← tailNat tok; let (v, r) ← parseV rest; pure (.counted n v, r)
-    | 'O' =>
-      match rest with
-      | t :: p :: c :: r => do pure (.bufio (← xbytes t) (← p.toNat?) (← xbytes c), r)
-      | _ => none
-    | 'M' => do let (s, r) ← parseV rest; let (n, r) ← parseV r; pure (.method s n, r)
-    | 'A' => do
-      let n ← tailNat tok
-      let dims ← (rest.take n).mapM (·.toNat?)
-      if dims.length ≠ n then none else
-      match rest.drop n with
-      | dt :: d :: r => pure (.ndarray dims (← xbytes dt) (← xbytes d), r)
-      | _ => none
-    | 'K' => do
-      let n ← tailNat tok
-      match rest with
-      | t :: r => let (xs, r) ← parseN n r; pure (.dataclass (← xbytes t) xs, r)
-      | _ => none
-    | 'G' => do
-      let n ← tailNat tok
-      match rest with
-      | t :: r => let (xs, r) ← parseN n r; pure (.newargs (← xbytes t) xs, r)
-      | _ => none
-    | 'U' => do
-      let n ← tailNat tok
-      match rest with
-      | t :: ver :: r => let (xs, r) ← parseN n r; pure (.immutable (← xbytes t) (← ver.toInt?) xs, r)
-      | _ => none
-    | 'V' => do
-      let n ← tailNat tok
-      match rest with
-      | t :: r => let (xs, r) ← parseN n r; pure (.dclass (← xbytes t) xs, r)
-      | _ => none
-    | 'W' => do
-      let n ← tailNat tok
-      match rest with
-      | t :: r => let (xs, r) ← parseN n r; pure (.frozendict (← xbytes t) xs, r)
-      | _ => none
-    | 'X' => do
-      let n ← tailNat tok
-      match rest with
-      | t :: r => let (xs, r) ← parseN n r; pure (.frozenmultiset (← xbytes t) xs, r)
-      | _ => none
-    | 'H' =>
-      match rest with
-      | p :: r => do pure (.opaque (← xbytes p), r)
-      | _ => none
-    | 'n' => do
-      let k ← tailNat tok
-      if k ≥ 256 then none else
-      let (v, r) ← parseV rest
-      -- the harness converts with `t(data)`; a kind that is converted must yield the matching Python scalar
-      let okShape := match v with
-        | .bool _ => k == 98 | .int _ => k == 105 | .float _ => k == 102 | .complex _ => k == 99 | _ => false
-      let known := k == 98 || k == 105 || k == 102 || k == 99
-      if known && !okShape then none else pure (.npscalar (UInt8.ofNat k) v, r)
-    | '?' =>
-      match rest with
-      | t :: r => do pure (.unsupported (← xbytes t), r)
-      | _ => none
-    | _ => none
-partial def parseN : Nat → List String → Option (List Value × List String)
-  | 0, r => some ([], r)
-  | n+1, r => do
-    let (x, r) ← parseV r
-    let (xs, r) ← parseN n r
-    pure (x :: xs, r)
-end
-
-def parseValue (s : String) : Option Value :=
-  match parseV (words s) with
-  | some (v, []) => some v
-  | _ => none
-
-/-! decision procedure for `Equiv` (exploration aid: greedy matching is complete because `Equiv` is an
-equivalence relation on well-formed values) -/
-mutual
-partial def equivB : Value → Value → Bool
-  | .none, .none => true
-  | .ellipsis, .ellipsis => true
-  | .bool a, .bool b => a == b
-  | .int a, .int b => a == b
-  | .float a, .float b => a == b
-  | .complex a, .complex b => a == b
-  | .str a, .str b => a == b
-  | .bytes a, .bytes b => a == b
-  | .type a, .type b => a == b
-  | .tuple xs, .tuple ys => equivLB xs ys
-  | .list xs, .list ys => equivLB xs ys
-  | .dict xs, .dict ys => matchB xs ys
-  | .set xs, .set ys => matchB xs ys
-  | .frozenset xs, .frozenset ys => matchB xs ys
-  | .bufio t p c, .bufio t' p' c' => t == t' && utf8 (Nat.repr p) ++ c == utf8 (Nat.repr p') ++ c'
-  | .method s n, .method s' n' => equivB s s' && equivB n n'
-  | .ndarray sh dt d, .ndarray sh' dt' d' => header sh dt == header sh' dt' && d == d'
-  | .dataclass t xs, .dataclass t' ys => t == t' && matchB xs ys
-  | .newargs t xs, .newargs t' ys => t == t' && equivLB xs ys
-  | .immutable m i xs, .immutable m' i' ys => immTag m i == immTag m' i' && equivLB xs ys
-  | .dclass m xs, .dclass m' ys => m == m' && equivLB xs ys
-  | .frozendict m xs, .frozendict m' ys => m == m' && matchB xs ys
-  | .frozenmultiset m xs, .frozenmultiset m' ys => m == m' && matchB xs ys
-  | .opaque p, .opaque q => p == q
-  | .pair k v, .pair k' v' => equivB k k' && equivB v v'
-  | .counted n v, .counted n' v' => n == n' && equivB v v'
-  | _, _ => false
-partial def equivLB : List Value → List Value → Bool
-  | [], [] => true
-  | x :: xs, y :: ys => equivB x y && equivLB xs ys
-  | _, _ => false
-partial def removeFirst (x : Value) : List Value → Option (List Value)
-  | [] => none
-  | y :: ys => if equivB x y then some ys else (removeFirst x ys).map (y :: ·)
-partial def matchB : List Value → List Value → Bool
-  | [], ys => ys.isEmpty
-  | x :: xs, ys => match removeFirst x ys with
-    | some ys' => matchB xs ys'
-    | none => false
-end
-
-/-- all `(tag, kind)` pairs of the tagged nodes of a value -/
-partial def tagKinds : Value → List (Bytes × Kind)
-  | v =>
-    let own := match kind v with | some k => [(tagB v, k)] | none => []
-    let kids : List Value := match v with
-      | .tuple xs | .list xs | .dict xs | .set xs | .frozenset xs => xs
-      | .dataclass _ xs | .newargs _ xs | .immutable _ _ xs | .dclass _ xs | .frozendict _ xs | .frozenmultiset _ xs => xs
-      | .method s n => [s, n]
-      | .pair k v => [k, v]
-      | .counted _ v => [v]
-      | .npscalar _ v => [v]
-      | _ => []
-    own ++ kids.flatMap tagKinds
-
-/-- is there a registry that both values respect?  (the first occurrence of every tag decides) -/
-def clashFree (v w : Value) : Bool :=
-  let tk := tagKinds v ++ tagKinds w
-  let reg : Registry := fun t => (tk.find? (fun e => e.1 == t)).map (·.2)
-  respects reg v && respects reg w
-
-def errName : HashErr → String | .typeError => "TypeError" | .keyError => "KeyError"
-
-def b01 (b : Bool) : String := if b then "1" else "0"
-
-def hashAns (v : Value) : String :=
-  match check v with
-  | some e => s!"err|{errName e}"
-  | none => s!"ok|{hex (nhash sha1 v)}|wf={b01 (wf .obj (norm v))}|nfed={(fed sha1 v).length}"
-
-def parseEvents (s : String) : Option (List (IEvent Nat)) :=
-  (words s).mapM fun t =>
-    if t.startsWith "c" then (tailNat t).map .call
-    else if t.startsWith "d" then (tailNat t).map .drop
-    else none
-
-def showOptNat : Option Nat → String | some i => toString i | none => "-"
-
-def parseParam (s : String) : Option (Param Int) :=
-  match s.splitOn ":" with
-  | [n] => some ⟨n, none⟩
-  | [n, d] => d.toInt?.map fun d => ⟨n, some d⟩
-  | _ => none
-
-def parseKw (s : String) : Option (String × Int) :=
-  match s.splitOn "=" with
-  | [n, d] => d.toInt?.map fun d => (n, d)
-  | _ => none
-
-def bindErrName : BindErr → String
-  | .tooMany => "tooMany" | .multiple => "multiple" | .missing => "missing" | .unexpected => "unexpected"
-
-def handle (line : String) : String :=
-  match fields line with
-  | ["sha1", h] =>
-    match unhex h with
-    | some b => hex (sha1 b)
-    | none => "bad-request"
-  | ["hash", v] =>
-    match parseValue v with
-    | some v => hashAns v
-    | none => "bad-request"
-  | ["cname", v] =>
-    match parseValue v with
-    | some v => if (check v).isSome then "err" else constName sha1 v
-    | none => "bad-request"
-  | ["pair", v, w] =>
-    match parseValue v, parseValue w with
-    | some v, some w =>
-      if (check v).isSome || (check w).isSome then "err" else
-      let nv := norm v; let nw := norm w
-      s!"eq={b01 (nhash sha1 v == nhash sha1 w)}|equiv={b01 (equivB nv nw)}|wf={b01 (wf .obj nv && wf .obj nw)}|clashfree={b01 (clashFree nv nw)}"
-    | _, _ => "bad-request"
-  | ["ckey", f, args, kwargs] =>
-    match unhex f, parseValue args, parseValue kwargs with
-    | some f, some (.tuple args), some (.dict kws) =>
-      let kw := kws.mapM fun e => match e with
-        | .pair (.str n) v => some (n, v)
-        | _ => none
-      match kw with
-      | some kw =>
-        if (checkL args).isSome || (kw.any fun e => (check e.2).isSome) then "err" else hex (cacheKey sha1 f args kw)
-      | none => "bad-request"
-    | _, _, _ => "bad-request"
-  | ["intern", evs] =>
-    match parseEvents evs with
-    | some evs =>
-      let tr := itrace (IState.empty : IState Nat) evs
-      let s := irun (IState.empty : IState Nat) evs
-      s!"{" ".intercalate (tr.map showOptNat)}|{" ".intercalate (s.objs.reverse.map fun o => s!"{o.1}:{o.2}")}"
-    | none => "bad-request"
-  | ["bind", ps, pos, kw] =>
-    match (words ps).mapM parseParam, parseInts pos, (words kw).mapM parseKw with
-    | some ps, some pos, some kw =>
-      match bindGo ps pos kw with
-      | .ok vals => s!"ok|{showInts vals}"
-      | .error e => s!"err|{bindErrName e}"
-    | _, _, _ => "bad-request"
-  | ["canon", sg, w, items] =>
-    match w.toNat?, (words items).mapM unhex with
-    | some w, some items =>
-      if sg != "s" && sg != "u" then "bad-request"
-      else if items.any (fun b => b.length != w) then "bad-request"
-      else match canonInts (sg == "s") w items with
-        | some out => s!"ok|{hex out.flatten}"
-        | none => "err|ValueError"
-    | _, _ => "bad-request"
-  | _ => "bad-request"
+/-! request syntax and handler: see `NutilsVerif/Model/C17/Wire.lean` -/
 
 def main : IO Unit := serve handle
